@@ -8,6 +8,7 @@ import (
 	"fmt"
 	"os"
 	"path/filepath"
+	"strconv"
 	"time"
 
 	"verifharness/internal/h"
@@ -39,6 +40,12 @@ func main() {
 		os.Exit(2)
 	}
 	fam := os.Args[1]
+	if fam == "hostile-child" {
+		from, _ := strconv.Atoi(os.Args[3])
+		to, _ := strconv.Atoi(os.Args[4])
+		hostileChild(os.Args[2], from, to)
+		return
+	}
 	if fam == "witness" {
 		fails, detail := h.Witness(os.Args[2])
 		fmt.Printf("%v\t%s\n", fails, detail)
@@ -86,6 +93,8 @@ func main() {
 		s = runDeterm(*seed, *n, *shards, *out, tmp, h.GenParams{
 			MaxCap: *maxcap, MinOps: *minops, MaxOps: *maxops, BigEvery: *bigevery, Queries: 0, DetMode: true,
 		})
+	case "hostile":
+		s = runHostile(*seed, *n, *out, *thorough)
 	case "concurrent":
 		s = runConcurrent(*seed, *n, *out, tmp)
 	case "verify":
